@@ -367,6 +367,12 @@ def main(argv):
     st = proof_gate(report)
     rng = random.Random(report.seed)
     run_normalize(report, 150 if tier == "quick" else 3000, rng)
+    if common.vo_ok("Corr/C06.v"):
+        # the reuse cache (GlyphReuseCache: who becomes a donor, when a shape is taken from one) is the state machine of
+        # Model/Reuse.v; its correspondence lives with C06 and is run here too
+        from harness import c06
+
+        c06.run_cache(report, 150 if tier == "quick" else 2500, random.Random(rng.getrandbits(48)))
     run_e2e(report, 30 if tier == "quick" else 900, rng)
     if not report.violations:
         run_small_and_many(report)
